@@ -48,18 +48,32 @@ const (
 	// maximum number of components visited (at all levels) to build the points of one glyph :
 	// the nesting limit alone does not bound the work, since each level may use several components
 	maxCompositeOperations = 1 << 14
+
+	// maximum number of points gathered (at all levels) to build one glyph :
+	// a component may have 65536 points, described by a few hundred bytes
+	maxCompositePoints = 1 << 18
+
+	// maximum number of (point, tuple variation) pairs processed to build one glyph :
+	// a component may have 4095 variations
+	maxCompositeVariations = 1 << 21
 )
 
 // use the `glyf` table to fetch the contour points,
 // applying variation if needed.
 // for composite, recursively calls itself; allPoints includes phantom points and will be at least of length 4
 func (f *Face) getPointsForGlyph(gid tables.GlyphID, currentDepth int, allPoints *[]contourPoint /* OUT */) {
-	budget := maxCompositeOperations
+	budget := compositeBudget{components: maxCompositeOperations, points: maxCompositePoints, variations: maxCompositeVariations}
 	f.pointsForGlyph(gid, currentDepth, allPoints, &budget)
 }
 
-// [budget] is shared by all the recursive calls, and decremented at each component
-func (f *Face) pointsForGlyph(gid tables.GlyphID, currentDepth int, allPoints *[]contourPoint /* OUT */, budget *int) {
+type compositeBudget struct {
+	components int // decremented at each component
+	points     int // decremented by the number of points of each glyph visited
+	variations int // decremented by the number of points of each glyph visited, times its number of variations
+}
+
+// [budget] is shared by all the recursive calls
+func (f *Face) pointsForGlyph(gid tables.GlyphID, currentDepth int, allPoints *[]contourPoint /* OUT */, budget *compositeBudget) {
 	// adapted from harfbuzz/src/hb-ot-glyf-table.hh
 
 	if currentDepth > maxCompositeNesting || int(gid) >= len(f.glyf) {
@@ -70,6 +84,13 @@ func (f *Face) pointsForGlyph(gid tables.GlyphID, currentDepth int, allPoints *[
 
 	var points []contourPoint
 	if data, ok := g.Data.(tables.SimpleGlyph); ok {
+		budget.points -= len(data.Points)
+		if f.isVar() && int(gid) < len(f.gvar.variations) {
+			budget.variations -= len(data.Points) * len(f.gvar.variations[gid])
+		}
+		if budget.points < 0 || budget.variations < 0 { // too many points
+			return
+		}
 		points = getContourPoints(data) // fetch the "real" points
 	} else { // zeros values are enough
 		points = make([]contourPoint, pointNumbersCount(g))
@@ -100,10 +121,10 @@ func (f *Face) pointsForGlyph(gid tables.GlyphID, currentDepth int, allPoints *[
 			// recurse on component
 			var compPoints []contourPoint
 
-			if *budget <= 0 { // too many components
+			if budget.components <= 0 { // too many components
 				return
 			}
-			*budget--
+			budget.components--
 			f.pointsForGlyph(item.GlyphIndex, currentDepth+1, &compPoints, budget)
 
 			LC := len(compPoints)
